@@ -323,7 +323,32 @@ def replay_bus_off():
             return {'confirmed': True, 'inputs': {'case': 'pjm5bus', 'bus switched off': b},
                     'observed': 'isolated buses reported %r, expected %r' % (list(ss.Bus.islanded_buses), [ss.Bus.idx2uid(b)]),
                     'native_cmd': "Bus.set('u', bus, 'v', 0); PFlow.run()"}
-    return {'confirmed': False, 'tried': ref.Bus.n}
+    # a bus that is off for good (Bus.alter writes the input value too) stays handled after System.reset(): its devices are switched
+    # off again and it is reported as isolated
+    for b in list(ref.Bus.idx.v)[1:3]:
+        ss = andes.load(case, default_config=True, no_output=True)
+        ss.Bus.alter('u', b, 0)
+        try:
+            ss.PFlow.run()
+            ss.reset()
+            ss.PFlow.run()
+        except Exception as e:      # noqa
+            return {'confirmed': True, 'inputs': {'case': 'pjm5bus', 'sequence': "Bus.alter('u', %r, 0); PFlow.run(); reset(); PFlow.run()" % (b,)}, 'observed': repr(e),
+                    'native_cmd': 'contracts/fn_connman.py replay_bus_off'}
+        for mname, flds in fields.items():
+            m, m0 = ss.__dict__[mname], ref.__dict__[mname]
+            for k in range(m.n):
+                attached = any(m.__dict__[f].v[k] == b for f in flds)
+                want = 0.0 if attached else float(m0.u.v[k])
+                if float(m.u.v[k]) != want:
+                    return {'confirmed': True, 'inputs': {'case': 'pjm5bus', 'sequence': "Bus.alter('u', %r, 0); PFlow.run(); reset(); PFlow.run()" % (b,)},
+                            'observed': 'after the reset %s %r (attached to the off bus: %r) has u = %r, expected %r' % (mname, m.idx.v[k], attached, float(m.u.v[k]), want),
+                            'native_cmd': 'contracts/fn_connman.py replay_bus_off'}
+        if [int(i) for i in ss.Bus.islanded_buses] != [ss.Bus.idx2uid(b)]:
+            return {'confirmed': True, 'inputs': {'case': 'pjm5bus', 'sequence': "Bus.alter('u', %r, 0); PFlow.run(); reset(); PFlow.run()" % (b,)},
+                    'observed': 'after the reset the isolated buses are reported as %r, expected %r' % (list(ss.Bus.islanded_buses), [ss.Bus.idx2uid(b)]),
+                    'native_cmd': 'contracts/fn_connman.py replay_bus_off'}
+    return {'confirmed': False, 'tried': ref.Bus.n + 2}
 
 
 def replay_g_islands(obligation, model, meta):
@@ -347,3 +372,51 @@ def replay_g_islands(obligation, model, meta):
                     'observed': 'dae.g after g_islands = %r, expected %r' % (stub.dae.g.tolist(), want.tolist()),
                     'native_cmd': 'System.g_islands(stub) called for a sequence of islanded sets'}
     return {'confirmed': False, 'tried': 6}
+
+
+def conn_init(pid):
+    """ConnMan.init (run by every System.setup, also the one inside System.reset): whatever the manager remembered before, afterwards
+    every bus counts as previously online (busu0 all ones, one entry per bus), no 'on' change is pending, the pending 'off' changes are
+    exactly the buses whose status is 0 now, is_needed is raised when there is one, the changes are acted upon, and True is returned."""
+    N = fresh('N', I)
+
+    def astype(ex, st, args, kw, node):
+        return args[0]
+
+    def act_h(ex, st, args, kw, node):
+        st.ghost['acted'] = st.ghost['acted'] + 1
+        ch = st.content(st.load('self.changes')).items
+        off, b0, u = st.content(ch['off']), st.content(st.load('self.busu0')), st.content(st.load('self.system.Bus.u.v'))
+        k = fresh('k', I)
+        ex.oblige(st, 'pre@call:act:pending-off-changes-are-exactly-the-buses-that-are-off-now,all-buses-previously-online',
+                  z3.And(off.n == N, b0.n == N, z3.ForAll([k], z3.Implies(z3.And(k >= 0, k < N), z3.And(
+                      b0.vals[k] == 1, z3.If(u.vals[k] == 0, off.vals[k] != 0, off.vals[k] == 0))))), {})
+        return None
+
+    def post(old, new, res):
+        ch = new.st.content(new.st.load('self.changes')).items
+        on, off = new.st.content(ch['on']), new.st.content(ch['off'])
+        b0, u = new.arr('self.busu0'), old.arr('self.system.Bus.u.v')
+        k = fresh('k', I)
+        anyoff = z3.Exists([k], z3.And(k >= 0, k < N, u.vals[k] == 0))
+        r = res if z3.is_expr(res) else z3.BoolVal(bool(res))
+        return z3.And(z3.BoolVal(new.st.ghost['acted'] == 1), r, on.n == N, off.n == N, b0.n == N,
+                      z3.ForAll([k], z3.Implies(z3.And(k >= 0, k < N), z3.And(b0.vals[k] == 1, on.vals[k] == 0,
+                                                                              z3.If(u.vals[k] == 0, off.vals[k] != 0, off.vals[k] == 0)))),
+                      z3.Implies(anyoff, new.z('self.is_needed')))
+    c = Contract(FC, 'ConnMan.init', pid=pid, params={'self': TObj()},
+                 schema={'self.busu0': TArr(), 'self.system.Bus.u.v': TArr(n=N), 'self.system.Bus.n': TInt(), 'self.is_needed': TBool(), 'ON': TArr(), 'OFF': TArr()},
+                 requires=[('sizes', lambda v: z3.And(N >= 0, v.z('self.system.Bus.n') == N)),
+                           ('statuses-are-0-or-1', lambda v: forall(N, lambda k: z3.Or(v.arr('self.system.Bus.u.v').vals[k] == 0, v.arr('self.system.Bus.u.v').vals[k] == 1)))],
+                 ghost_init={'acted': 0}, calls={'self.act': act_h, '<value>.astype': astype},
+                 ensures=[('busu0=ones;on=zeros;off=buses-off-now;is_needed-if-any;acted-once;returns-True', post)],
+                 modifies=['self.busu0', 'self.changes', 'self.is_needed', 'ON', 'OFF'])
+    c.pre_state = changes_state
+    return c
+
+
+def replay_conn_init(obligation=None, model=None, meta=None):
+    return replay_bus_off()
+
+
+replay_conn_init.real_system = True
